@@ -454,7 +454,8 @@ Proof.
   rewrite FB. cbn [negb].
   eexists. split; [reflexivity|]. cbn [c1_certs c1_flags c1_build c1_major c1_minor c1_image_length c1_rkh].
   assert (EX : export_v1 (slots_v1 (c1_rkh b)) = export_v1 (c1_rkh b)) by (rewrite !export_v1_slots; now rewrite (slots_v1_idem _ Hrh)).
-  repeat split; try reflexivity.
+  split; [reflexivity|]. split; [reflexivity|]. split; [reflexivity|]. split; [reflexivity|]. split; [reflexivity|].
+  split; [reflexivity|]. split; [reflexivity|]. split; [|split].
   - unfold cb1_rkth. cbn [c1_rkh]. unfold rkth_v1. now rewrite EX.
   - unfold cb1_fuses, cb1_rkth. cbn [c1_rkh]. unfold rkth_v1. now rewrite EX.
   - intros E0. unfold d, P, body, T, cb1_header. cbn [c1_certs c1_flags c1_build c1_major c1_minor c1_image_length c1_rkh].
@@ -473,8 +474,8 @@ Lemma cb1_roundtrip_refuted_lemma :
 Proof.
   split.
   - unfold wf_cb1, il_block. cbn [c1_major c1_minor c1_flags c1_build c1_certs c1_rkh].
-    repeat split; try (vm_compute; reflexivity); try (simpl; lia).
-    + repeat constructor.
-    + intros h [].
+    split; [vm_compute; reflexivity|]. split; [vm_compute; reflexivity|]. split; [vm_compute; reflexivity|].
+    split; [vm_compute; reflexivity|]. split; [constructor; [vm_compute; reflexivity|constructor]|].
+    split; [vm_compute; reflexivity|]. split; [vm_compute; reflexivity|]. split; [cbn [length]; lia|]. intros h [].
   - vm_compute. reflexivity.
 Qed.
